@@ -12,7 +12,7 @@
 (* an event may carry eqto = j (j < its index, 0 = none): its row set     *)
 (* must equal the row set observed by event j (metamorphic clause).      *)
 (* TLC computes every expected value; the harness ships none.            *)
-EXTENDS EQLMech, Json, IOUtils
+EXTENDS EQLMech2, Json, IOUtils
 
 Traces == ndJsonDeserialize(IOEnv.TRACE_FILE)
 
@@ -109,6 +109,11 @@ OrderDrift(q, W, rows) ==
   LET m == MechRowSeq(q, W)
   IN NVars(q) <= 2 /\ Len(m) = Len(rows) /\ (\A a, b \in 1..Len(m) : a # b => ~SameRow(m[a], m[b]))
      /\ \E j \in 1..Len(m) : ~SameRow(m[j], rows[j])
+\* stage B2 (with duplicate suppression) predicts the exact row sequence of an evaluation made with the result caches
+\* switched off (events flagged b2)
+OrderDrift2(q, W, rows) ==
+  LET m == MechRowSeq2(q, W)
+  IN Len(m) # Len(rows) \/ \E j \in 1..Len(m) : ~SameRow(m[j], rows[j])
 DriftFailures(t) ==
   IF "graphs" \notin DOMAIN t THEN {}
   ELSE {f \in {[id |-> t.id, at |-> j, clause |->
@@ -117,6 +122,9 @@ DriftFailures(t) ==
                    ELSE IF \E e \in 1..Len(t.evs) : t.evs[e].op = "drain" /\ t.evs[e].qi = j /\ t.evs[e].exc = "none"
                                                         /\ t.evs[e].first /\ OrderDrift(t.qs[j], t.W, t.evs[e].rows)
                         THEN "drift.order"
+                   ELSE IF \E e \in 1..Len(t.evs) : t.evs[e].op = "drain" /\ t.evs[e].qi = j /\ t.evs[e].exc = "none"
+                                                        /\ t.evs[e].b2 /\ OrderDrift2(t.qs[j], t.W, t.evs[e].rows)
+                        THEN "drift.order-b2"
                    ELSE "ok"] : j \in 1..Len(t.graphs)} : f.clause # "ok"}
 
 CaseFailures(t) == {f \in {[id |-> t.id, at |-> j, clause |-> EvVerdict(t, j)] : j \in 1..Len(t.evs)} :
